@@ -214,6 +214,8 @@ struct World {
     /// inbound packets sent so far: (seq or rtcp sender ssrc) -> step index
     in_by_seq: HashMap<u16, usize>,
     in_by_rtcp_ssrc: HashMap<u32, usize>,
+    /// deliveries drained between the packets of a burst, not yet reported
+    pending: Vec<(char, Option<usize>)>,
 }
 
 impl World {
@@ -258,6 +260,7 @@ impl World {
             in_seq: 100 + rng.below(50000) as u16,
             in_by_seq: HashMap::new(),
             in_by_rtcp_ssrc: HashMap::new(),
+            pending: Vec::new(),
         }
     }
 
@@ -411,8 +414,19 @@ fn inbound(w: &mut World, rtcp: bool, auth: &str, step: usize, rng: &mut Rng) ->
         (true, "clear") => {
             let mut b = marshal_rtcp_packets(&rtcp_packets(rtcp_ssrc, rng)).unwrap();
             // (trailers only when a session exists: without one they merely break the compound parse)
-            let how = match if w.gen_[0] > 0 { rng.below(3) } else { 0 } {
+            let how = match if w.gen_[0] > 0 { rng.below(4) } else { 0 } {
                 0 => "plain",
+                3 => {
+                    // exactly one authentication tag's worth of trailer: a receiver that strips the tag and then
+                    // fails open is left with a well-formed plain compound
+                    let n = match w.profile {
+                        SrtpProfile::Aes128Sha1_32 => [4usize, 10][rng.below(2) as usize],
+                        SrtpProfile::AeadAes128Gcm => 16,
+                        _ => 10,
+                    };
+                    b.extend(rng.bytes(n));
+                    "plain+tag-sized-trailer"
+                }
                 1 => {
                     // looks like SRTCP: E=0 index + random tag
                     b.extend_from_slice(&1u32.to_be_bytes());
@@ -716,6 +730,34 @@ struct Seen {
     deliveries: Vec<(char, Option<usize>)>,
 }
 
+/// Drain the listener channels, the RTCP listener and the observers (in-process: complete when `receive` returned).
+fn collect_sinks(w: &mut World, deliveries: &mut Vec<(char, Option<usize>)>) {
+    let nonce = w.nonce;
+    let by_seq = |w: &World, p: &RtpPacket| step_of_payload(IN_MARK, nonce, &p.payload).or(w.in_by_seq.get(&p.header.sequence_number).copied());
+    while let Ok((p, _)) = w.lst_rx.try_recv() {
+        deliveries.push(('l', by_seq(w, &p)));
+    }
+    while let Ok((p, _)) = w.prov_rx.try_recv() {
+        deliveries.push(('l', by_seq(w, &p)));
+    }
+    while let Ok(pk) = w.rtcp_rx.try_recv() {
+        let origin = pk.iter().find_map(rtcp_sender_ssrc).and_then(|s| w.in_by_rtcp_ssrc.get(&s).copied());
+        deliveries.push(('r', origin));
+    }
+    for t in 0..2 {
+        for p in std::mem::take(&mut *w.obs[t].ingress.lock()) {
+            deliveries.push(('o', by_seq(w, &p)));
+        }
+        for p in std::mem::take(&mut *w.obs[t].egress.lock()) {
+            // locally originated packets (send_rtp) pass the egress observer too: not a delivery
+            if step_of_payload(OUT_MARK, nonce, &p.payload).is_some() {
+                continue;
+            }
+            deliveries.push(('t', step_of_payload(IN_MARK, nonce, &p.payload)));
+        }
+    }
+}
+
 /// Everything that reached the two wires and the sinks since the previous call. `k` is the step that has
 /// just run (datagrams / deliveries whose content identifies no step are attributed to it); `ops[i]` is the
 /// operation of step i.
@@ -780,29 +822,8 @@ fn observe2(net: &mut Net, w: &mut World, k: usize, rcv_k: usize, ops: &[&str], 
             wire.push(WireObs { t, cls, detail, origin_step, len: d.len() });
         }
     }
-    let by_seq = |w: &World, p: &RtpPacket| step_of_payload(IN_MARK, nonce, &p.payload).or(w.in_by_seq.get(&p.header.sequence_number).copied());
-    while let Ok((p, _)) = w.lst_rx.try_recv() {
-        deliveries.push(('l', by_seq(w, &p)));
-    }
-    while let Ok((p, _)) = w.prov_rx.try_recv() {
-        deliveries.push(('l', by_seq(w, &p)));
-    }
-    while let Ok(pk) = w.rtcp_rx.try_recv() {
-        let origin = pk.iter().find_map(rtcp_sender_ssrc).and_then(|s| w.in_by_rtcp_ssrc.get(&s).copied());
-        deliveries.push(('r', origin));
-    }
-    for t in 0..2 {
-        for p in std::mem::take(&mut *w.obs[t].ingress.lock()) {
-            deliveries.push(('o', by_seq(w, &p)));
-        }
-        for p in std::mem::take(&mut *w.obs[t].egress.lock()) {
-            // locally originated packets (send_rtp) pass the egress observer too: not a delivery
-            if step_of_payload(OUT_MARK, nonce, &p.payload).is_some() {
-                continue;
-            }
-            deliveries.push(('t', step_of_payload(IN_MARK, nonce, &p.payload)));
-        }
-    }
+    deliveries.append(&mut w.pending);
+    collect_sinks(w, &mut deliveries);
     stats.deliveries += deliveries.len() as u64;
     Seen { wire, deliveries }
 }
@@ -837,6 +858,7 @@ const TNAME: [&str; 2] = ["X", "Y"];
 
 async fn run_behaviour(net: &mut Net, case: &Value, idx: usize, seed: u64, out: &mut NdjsonOut, stats: &mut Stats) {
     let req = [case["rx"].as_bool().unwrap(), case["ry"].as_bool().unwrap()];
+    let rep = case.get("rep").and_then(|v| v.as_u64()).unwrap_or(1).max(1) as usize;
     let steps: Vec<StepExp> = case["h"].as_array().unwrap().iter().map(parse_step).collect();
     // concretisation choices are a function of (VERIF_SEED, behaviour) only
     let mut h: u64 = seed ^ 0x51_7cc1_b727_220a_95;
@@ -846,7 +868,7 @@ async fn run_behaviour(net: &mut Net, case: &Value, idx: usize, seed: u64, out: 
         }
         h = h.wrapping_mul(31);
     }
-    h ^= (req[0] as u64) << 1 | (req[1] as u64);
+    h ^= (req[0] as u64) << 1 | (req[1] as u64) | (rep as u64) << 8;
     let mut rng = Rng(h);
     let profile = match case.get("profile").and_then(|p| p.as_u64()) {
         Some(p) => PROFILES[p as usize % 3],
@@ -863,15 +885,33 @@ async fn run_behaviour(net: &mut Net, case: &Value, idx: usize, seed: u64, out: 
     for (k, st) in steps.iter().enumerate() {
         ads.push(st.ad);
         let mut result = String::new();
-        // ---- prepare (harness code: a panic here is a harness bug and must crash the run)
-        let (act, how) = prepare(&st.op, &mut w, k, &mut rng);
-        // ---- execute on the real objects (a panic here is data)
-        let r = {
-            let result = &mut result;
-            let mbuf = &mut mbuf;
-            let (tr, conn, peer_addr) = (w.tr.clone(), w.conn[0].clone(), net.peer_addr[0]);
-            catch_async(async move { *result = exec(act, &tr, &conn, peer_addr, mbuf).await }).await
-        };
+        // an inbound action is a burst of `rep` packets of its class (each concretised anew); the sinks are drained
+        // between the packets (bounded channels), the wire is read once after the burst
+        let burst = if st.op.starts_with('R') { rep } else { 1 };
+        let mut r = Ok(());
+        let mut how = String::new();
+        for b in 0..burst {
+            // ---- prepare (harness code: a panic here is a harness bug and must crash the run)
+            let (act, h) = prepare(&st.op, &mut w, k, &mut rng);
+            if b + 1 == burst || how.is_empty() {
+                how = if burst > 1 { format!("{h} (burst of {burst})") } else { h };
+            }
+            // ---- execute on the real objects (a panic here is data)
+            let r1 = {
+                let result = &mut result;
+                let mbuf = &mut mbuf;
+                let (tr, conn, peer_addr) = (w.tr.clone(), w.conn[0].clone(), net.peer_addr[0]);
+                catch_async(async move { *result = exec(act, &tr, &conn, peer_addr, mbuf).await }).await
+            };
+            if r1.is_err() {
+                r = r1;
+            }
+            if burst > 1 {
+                let mut d = Vec::new();
+                collect_sinks(&mut w, &mut d);
+                w.pending.append(&mut d);
+            }
+        }
         stats.steps += 1;
         let mut step_divs: Vec<Value> = Vec::new();
         if let Err(msg) = r {
@@ -921,6 +961,12 @@ async fn run_behaviour(net: &mut Net, case: &Value, idx: usize, seed: u64, out: 
         // ---- beyond the property: exact expectation of the contract
         let mut exp_d: Vec<char> = st.deliveries.chars().collect();
         exp_d.sort();
+        if burst > 1 {
+            // every packet of the burst is expected to do what one does
+            let mut toks: Vec<&str> = (0..observed_emission.len() / 2).map(|i| &observed_emission[2 * i..2 * i + 2]).collect();
+            toks.dedup();
+            observed_emission = toks.concat();
+        }
         let ext = if st.dx && (observed_emission != st.emission || observed_deliveries != exp_d) {
             Some(json!({"rule": "EXT", "field": "exact", "expected": {"wire": st.emission, "sinks": st.deliveries},
                         "observed": {"wire": observed_emission, "sinks": observed_deliveries.iter().collect::<String>()}}))
